@@ -326,7 +326,8 @@ func importWorker(importWork chan importJob) {
 			for viewName, viewData := range j.req.Views {
 				if viewName == "" {
 					viewName = viewStandard
-				} else {
+				} else if !strings.HasPrefix(viewName, viewBSIGroupPrefix) {
+					// (an integer field's view is repaired under its own name)
 					viewName = fmt.Sprintf("%s_%s", viewStandard, viewName)
 				}
 				if len(viewData) == 0 {
@@ -393,8 +394,10 @@ func (api *API) ImportRoaring(ctx context.Context, indexName, fieldName string, 
 		return newNotFoundError(ErrFieldNotFound)
 	}
 
-	// only set and time fields are supported
-	if field.Type() != FieldTypeSet && field.Type() != FieldTypeTime {
+	// only set and time fields are supported for client imports; a remote
+	// request is either one this check already passed on the forwarding node
+	// or an anti-entropy repair, which must reach every field type.
+	if !remote && field.Type() != FieldTypeSet && field.Type() != FieldTypeTime {
 		return NewBadRequestError(errors.New("roaring import is only supported for set and time fields"))
 	}
 
